@@ -44,6 +44,12 @@ Theorem C12_future_predicates_do_not_depend_on_statement_order : forall (A : Typ
   forall (P Q : list (frule A)) (o o' : output A), (forall r, In r P <-> In r Q) ->
   transform_program A leA P = Some o -> transform_program A leA Q = Some o' -> o_bridge A o = o_bridge A o'.
 Proof. exact bridges_order_independent. Qed.
+(* one counter for the auxiliary atoms of head formulas across all statements (and input files): the rewritten program uses __aux_0 .. __aux_(n-1) for
+   the n rules whose head is a temporal formula *)
+Theorem C12_head_formulas_are_numbered_across_the_whole_input : forall (A : Type) (leA : A -> A -> bool) (P : list (frule A)) (o : output A),
+  transform_program A leA P = Some o -> o_naux A o = tel_heads A P.
+Proof. exact aux_atoms_count. Qed.
+Print Assumptions C12_head_formulas_are_numbered_across_the_whole_input.
 Print Assumptions C12_future_predicates_do_not_depend_on_statement_order.
 Print Assumptions C12_order_dup_split.
 Print Assumptions C12_tsm_same.
